@@ -54,9 +54,9 @@ CLAIMED = {
     'C38': dict(
         text='calculate_even_genome_partitioning.calc_parts verified for every contig length >= 1 and interval size >= 1: the inclusive intervals start at base 1, '
         'are adjacent and non-empty, end at the contig length and satisfy end - start <= interval_size (loop invariant, nonlinear ceil facts discharged by z3). '
-        'Only this clause of C38 is claimed; merge-plan conservation and save/resume are listed undecided.',
+        'Merge plan: the selection statements of _step_vdses (first bin, one top-up iteration) and _step_gvcfs are verified as fragments - what is taken and what stays split what was there (take ++ rest == old per bin, other bins untouched, between 1 and branch_factor datasets); the intermediate path prefix of a resumed combiner is fresh (AST). save/load of the plan and termination are listed undecided.',
         note=COMMON_NOTE + 'math.ceil(a / b) on ints treated as the exact rational ceiling (valid below 2**53); hl.Interval/hl.Locus are value constructors; '
-        'the @typecheck decorator is dropped by extraction. Merge plan (_step_vdses/_step_gvcfs), plan save/load and engine calls are NOT covered.',
+        'the @typecheck decorator is dropped by extraction. Plan save/load (JSON encoder/decoder), engine calls (combine_variant_datasets, import_gvcfs) and termination of run() are NOT covered.',
         technique='loop-invariant contract on real source, pyvc -> z3',
         design_ref='7/C38',
     ),
@@ -91,7 +91,7 @@ CLAIMED = {
         text='Every procedure that changes free cores or ends/places an attempt (schedule_job, mark_job_creating, mark_job_started, unschedule_job, mark_job_complete via add_attempt, '
         'deactivate_instance, activate_instance, mark_instance_deleted) is executed symbolically path by path: delta free cores == cores x (attempt live before - live after) for every live instance, '
         'frames for other instances/attempts, deactivate leaves free == cores. One known finding (pending-instance release asymmetry) is listed in known_findings.json.',
-        note=COMMON_NOTE + 'Assumed: each procedure call is atomic (serialisable isolation); MySQL NULL/boolean semantics as encoded in vc/sqlvc.py; integer column widths sufficient; SQL cannot be executed in this sandbox so counter-models are rows (VIOLATION ... no-failing-input-found). ' + 'Delta obligations lift to the invariant by sum localisation (paper lemma L1). Python-side mirror not covered.',
+        note=COMMON_NOTE + 'Assumed: each procedure call is atomic (serialisable isolation); MySQL NULL/boolean semantics as encoded in vc/sqlvc.py; integer column widths sufficient; SQL cannot be executed in this sandbox so counter-models are rows (VIOLATION ... no-failing-input-found). ' + 'Delta obligations lift to the invariant by sum localisation (paper lemma L1). Inactive instances never move. Python mirror: the delta reported by each procedure is applied to the in-memory figure once whatever the return code (fragment contracts on driver/job.py), Instance.adjust_free_cores_in_memory adds exactly it.',
         technique='procedure contracts (delta obligations) on the real SQL text, sqlvc -> z3',
         engine='sqlvc',
         design_ref='7/C10, 2.3',
@@ -108,7 +108,7 @@ CLAIMED = {
     'C07': dict(
         text='is_job_group_cancelled / is_job_cancelled / is_batch_cancelled proved equal to the spec predicates over the tables; schedule_job, mark_job_creating, mark_job_started move a job to Creating/Running only when the spec '
         'predicate says not cancelled and always answer with a result row; jobs_before_insert signals exactly for cancelled groups; cancel_job_group / cancel_batch are idempotent and change grp_cancelled exactly on the subtree.',
-        note=COMMON_NOTE + 'Assumed: each procedure call is atomic (serialisable isolation; justified by the lock-discipline obligations where stated); MySQL NULL/boolean semantics as encoded in vc/sqlvc.py; integer column widths sufficient; SQL cannot be executed in this sandbox so counter-models are rows (VIOLATION ... no-failing-input-found). ' + 'Structural invariant A1 of job_group_self_and_ancestors is a precondition. Python-side guards (front end, canceller, scheduler queries) are listed undecided.',
+        note=COMMON_NOTE + 'Assumed: each procedure call is atomic (serialisable isolation; justified by the lock-discipline obligations where stated); MySQL NULL/boolean semantics as encoded in vc/sqlvc.py; integer column widths sufficient; SQL cannot be executed in this sandbox so counter-models are rows (VIOLATION ... no-failing-input-found). ' + 'Structural invariant A1 of job_group_self_and_ancestors is a precondition. Python side: _create_job_group (cancelled-ancestor guard before the insert) and cancel_job_group_in_db (every accepted cancellation calls the procedure) are under pyvc contracts; commit_update and the scheduler/canceller queries are listed undecided.',
         technique='function/procedure contracts against spec predicates on the real SQL text, sqlvc -> z3',
         engine='sqlvc',
         design_ref='7/C07, 2.3',
